@@ -266,6 +266,7 @@ func ZZ_C17_QuatHomogeneous() {
 // plus oblique directions; everything is concrete, the point is to execute the library's own branch)
 func ZZ_C17_RotationToOpposed() {
 	dirs := append([]vector3.Float64{}, unitDirs...)
+	dirs = append(dirs, vector3.New(-1., 0., 0.), vector3.New(0., 0., -1.), vector3.New(-0.6, 0., -0.8))
 	dirs = append(dirs, vector3.New(1., 2., 3.).Normalized(), vector3.New(-2., 1., 0.5).Normalized(), vector3.New(0.3, -0.4, 0.5).Normalized())
 	from := dirs[zz.Choose("dir", len(dirs))]
 	to := vector3.New(-from.X(), -from.Y(), -from.Z())
